@@ -106,7 +106,7 @@ func factsC04(r *Repo) []Fact {
 		}
 	}
 	out = append(out, boolFact("adaptorNamesMatch", okAd, "every derived form uses the adaptor named <target>By<Source>"))
-	out = append(out, factEmptyStream(cp), factDagGetEmptyStream(cp), factStreamFilterNilSafe(cp))
+	out = append(out, factEmptyStream(cp), factDagGetEmptyStream(cp), factStreamFilterNilSafe(cp), factFieldCheckerPresentOnly(cp))
 	return out
 }
 
@@ -233,4 +233,99 @@ func factStreamFilterNilSafe(cp *Pkg) Fact {
 		w = "compose/" + file + " defaultStreamMapFilter calls " + unsafeCall + " (panics for an untyped nil)"
 	}
 	return boolFact("streamFilterNilSafe", unsafeCall == "", w)
+}
+
+// validateFieldMapping returns a combined run-time checker over the edge's field map
+//   checker := func(value any) (any, error) { mValue := value.(map[string]any); … v.invoke(mValue[…]) … }
+// In stream mode the field map of a chunk holds only the keys the chunk carries, so every call of a
+// per-target checker (`<x>.invoke(<map>[<key>])`) must be guarded by the presence of <key> in <map>:
+// it sits in a `for <key> := range <map>` loop, or in an `if _, ok := <map>[<key>]; ok` statement.
+func factFieldCheckerPresentOnly(cp *Pkg) Fact {
+	name := "fieldCheckerPresentKeysOnly"
+	fd, file := cp.Func("", "validateFieldMapping")
+	if fd == nil || fd.Body == nil {
+		return unknownFact(name, "Bool", "false", "compose/field_mapping.go", "validateFieldMapping not found")
+	}
+	// the combined checker: the last top-level `<id> := func(value any) (any, error) {…}` whose body
+	// asserts its parameter to map[string]any
+	var lit *ast.FuncLit
+	mapVar := ""
+	for _, st := range fd.Body.List {
+		as, ok := st.(*ast.AssignStmt)
+		if !ok || len(as.Rhs) != 1 {
+			continue
+		}
+		fl, ok := as.Rhs[0].(*ast.FuncLit)
+		if !ok || fl.Body == nil {
+			continue
+		}
+		for _, bs := range fl.Body.List {
+			a2, ok := bs.(*ast.AssignStmt)
+			if !ok || len(a2.Lhs) < 1 || len(a2.Rhs) != 1 {
+				continue
+			}
+			if ta, ok := a2.Rhs[0].(*ast.TypeAssertExpr); ok && ta.Type != nil && exprString(ta.Type) == "map[string]any" {
+				lit, mapVar = fl, exprString(a2.Lhs[0])
+			}
+		}
+	}
+	if lit == nil {
+		return unknownFact(name, "Bool", "false", "compose/"+file, "no combined checker `func(value any) … value.(map[string]any)` at the top level of validateFieldMapping")
+	}
+	// walk with the stack of enclosing statements
+	calls, guarded := 0, 0
+	detail := ""
+	var stack []ast.Node
+	ast.Inspect(lit.Body, func(n ast.Node) bool {
+		if n == nil {
+			stack = stack[:len(stack)-1]
+			return true
+		}
+		stack = append(stack, n)
+		call, ok := n.(*ast.CallExpr)
+		if !ok {
+			return true
+		}
+		sel, ok := call.Fun.(*ast.SelectorExpr)
+		if !ok || sel.Sel.Name != "invoke" || len(call.Args) != 1 {
+			return true
+		}
+		calls++
+		idx, ok := call.Args[0].(*ast.IndexExpr)
+		if !ok || exprString(idx.X) != mapVar {
+			detail = "a per-target checker is called on " + exprString(call.Args[0]) + " (not an entry of " + mapVar + ")"
+			return true
+		}
+		key := exprString(idx.Index)
+		ok = false
+		for _, anc := range stack {
+			switch a := anc.(type) {
+			case *ast.RangeStmt:
+				if exprString(a.X) == mapVar && a.Key != nil && exprString(a.Key) == key {
+					ok = true
+				}
+			case *ast.IfStmt:
+				if init, isAs := a.Init.(*ast.AssignStmt); isAs && len(init.Lhs) == 2 && len(init.Rhs) == 1 {
+					if ix, isIx := init.Rhs[0].(*ast.IndexExpr); isIx && exprString(ix.X) == mapVar && exprString(ix.Index) == key &&
+						exprString(a.Cond) == exprString(init.Lhs[1]) {
+						ok = true
+					}
+				}
+			}
+		}
+		if ok {
+			guarded++
+		} else {
+			detail = "the per-target checker is called on " + mapVar + "[" + key + "] without a guard that " + key + " is in " + mapVar
+		}
+		return true
+	})
+	if calls == 0 {
+		return unknownFact(name, "Bool", "false", "compose/"+file, "the combined checker of validateFieldMapping calls no per-target checker (.invoke)")
+	}
+	w := "compose/" + file + " validateFieldMapping: the combined checker calls the per-target checkers only on entries the field map has (range over " + mapVar + " / comma-ok lookup)"
+	if guarded != calls {
+		w = "compose/" + file + " validateFieldMapping: " + detail
+	}
+	return boolFact(name, guarded == calls, w)
 }
